@@ -196,7 +196,7 @@ def judge_plugin(st0, ops, props=None, classify=True):
                                         "(G92 E: %d, G0 X/Y: %d, G0 Z: %d, exit script %r)"
                                  % (idx, pre, n_e, n_xy, n_z, exit_lines))
                     if isinstance(r, tuple) and len(r) == 2 and isinstance(r[0], list) and tracked_ok[0] \
-                            and not unknown_axis and virt.abs and virt.unit == 1.0:
+                            and not unknown_axis and virt.unit == 1.0:
                         try:
                             for c in r[0]:
                                 phys.execute(c)
